@@ -47,3 +47,11 @@ Example C20_cli_raw_key_fixed :
   /\ forallb (fun b => b) (spec_trace [] None w_loglevel (run cfgtool_actual true None w_loglevel)) = true
   /\ map o_rc (run cfgtool_actual true None w_loglevel) = [set_reject_exit; 0].
 Proof. vm_compute. repeat split; reflexivity. Qed.
+
+(* the same defect with a root mapping that is indented as a whole *)
+Definition w_indented : list string := ["  nesting:"; "    max_nesting_depth: 3"; "  dry:"; "    enabled: false"; ""].
+Theorem C20_append_to_indented_root_refuted :
+  analyse w_indented = RFlow ["nesting"; "dry"] /\ struct_r (analyse (after cfgtool_actual w_indented)) = false
+  /\ valid_b std w_indented (after cfgtool_actual w_indented) = false
+  /\ valid_b std w_indented (after (with_flag 1 cfgtool_actual) w_indented) = true.
+Proof. vm_compute. repeat split; reflexivity. Qed.
